@@ -91,7 +91,7 @@ def run_class_abstraction(eng, p):
 
 
 def contracts(tier):
-    return [
+    return scanner_contracts(tier) + [
         Contract('C08/parse_smtlib/static', ['ddsmt.nodeio.parse_smtlib'],
                  run_class_abstraction,
                  assumptions=['state-count argument (finite transducer over '
@@ -109,4 +109,504 @@ def native_checks(tier):
                     bound=f'all strings of length <= {L} over 11 '
                     'representative characters + 14 hand-picked longer '
                     'texts', timeout=3000),
+    ]
+
+
+# ---------------------------------------------------------------------------
+# Deductive contract of the scanner (unbounded text, token length, nesting)
+#
+# The text is an array of character codes of arbitrary length.  Every loop of
+# parse_smtlib has an invariant; for the outer loop the arbitrary iteration
+# is checked against the declarative description of *one step of a reader*:
+# the lexeme that starts at the current position is determined by first-order
+# conditions on the text (maximal munch), it is consumed exactly, and the
+# stack of open lists is changed as the lexeme prescribes.  The reader's
+# result is the fold of these steps, which is the loop itself.
+
+import z3  # noqa: E402
+
+from pyvc import sym  # noqa: E402
+from pyvc.api import outcome  # noqa: E402
+from pyvc.interp import LoopSpec, ObjVal, PyRaise, Unsupported  # noqa: E402
+from pyvc.sym import SNum, mk_bool  # noqa: E402
+from . import env as envmod  # noqa: E402
+from . import nodemodel as nm  # noqa: E402
+from . import textmodel as tm  # noqa: E402
+
+PS = 'ddsmt.nodeio.parse_smtlib'
+WS = [ord(c) for c in ' \t\n\r']
+NL = [ord(c) for c in '\n\r']
+DELIM = WS + [ord(c) for c in '();']
+Q, BAR, SEMI, LP, RP = ord('"'), ord('|'), ord(';'), ord('('), ord(')')
+
+L_OUTER = 'while pos < size'
+L_LIT = 'while True'
+L_COMMENT = 'while pos < size#2'
+L_IDENT = 'while pos < size#3'
+
+
+def is_in(code, cs):
+    return z3.Or([code == c for c in cs])
+
+
+def forall_range(lo, hi, pred):
+    i = z3.Int('i!q')
+    return z3.ForAll([i], z3.Implies(z3.And(lo <= i, i < hi), pred(i)))
+
+
+def setup_scanner(eng):
+    nm.install(eng)
+    tm.install(eng)
+    eng._ns = envmod.static_options(eng)
+    eng.spec_required.add(PS)
+
+    def T(env_):
+        return env_.vars['text']
+
+    def zi(v):
+        return tm.zint(v)
+
+    def spans_of(x, text):
+        """Segments of a character list (real list of SChar or CharList)."""
+        if isinstance(x, list):
+            if not all(isinstance(c, tm.SChar) for c in x):
+                return None
+            x = tm.CharList.of_list(text, x)
+        if isinstance(x, tm.CharList):
+            return x.single_span()
+        return None
+
+    def is_node(x):
+        return isinstance(x, ObjVal) and x.cls is nm.node_class(eng)
+
+    # ---- outer loop -----------------------------------------------------------
+    def havoc_outer(e, env_, p):
+        t = T(env_)
+        pos = p.fresh_int('pos')
+        env_.vars['pos'] = SNum(pos)
+        depth_pos = p.decide(p.fresh_bool('some_list_is_open'))
+        below = p.fresh_int('below')
+        p.assume(below >= 0)
+        if depth_pos:
+            cur_ = tm.AbsNodeList('cur')
+            st = tm.AbsStack(e, p, below, [cur_])
+            env_.vars['cur_expr'] = cur_
+        else:
+            st = tm.AbsStack(e, p, z3.IntVal(0), [])
+            env_.vars['cur_expr'] = None
+        env_.vars['exprs'] = st
+        env_.vars['char'] = tm.SChar(t, code=p.fresh_int('char'))
+        # names the body assigns before reading them
+        return None
+
+    def stack_view(x):
+        """(below, [entries]) of the stack, real list or AbsStack."""
+        if isinstance(x, tm.AbsStack):
+            return x.below, list(x.top)
+        if isinstance(x, list):
+            return z3.IntVal(0), list(x)
+        return None
+
+    def inv_outer(e, env_):
+        v = env_.vars
+        t = T(env_)
+        out = [z3.And(zi(v['pos']) >= 0, zi(v['pos']) <= t.size)]
+        sv = stack_view(v['exprs'])
+        if sv is None:
+            return out + [False]
+        below, top = sv
+        cur_ = v['cur_expr']
+        if top:
+            shape = cur_ is top[-1]
+        else:
+            # no visible entry: the stack is empty iff nothing is below
+            shape = mk_bool(z3.simplify(below == 0)) if cur_ is None else False
+            if cur_ is None and not isinstance(shape, bool):
+                shape = mk_bool(below == 0)
+        out.append(('C08', sym.zbool(shape) if not isinstance(shape, bool)
+                    else shape))
+        # every open list holds nodes only
+        ok = True
+        for lst in top:
+            items = lst.appended if isinstance(lst, tm.AbsNodeList) else lst
+            if not isinstance(items, list) or not all(
+                    is_node(x) for x in items):
+                ok = False
+        out.append(('C04', ok))
+        return out
+
+    def snap_outer(e, env_, p):
+        v = env_.vars
+        below, top = stack_view(v['exprs'])
+        p.ghost['it'] = {
+            'pos0': zi(v['pos']), 'below0': below, 'top0': top,
+            'cur0': v['cur_expr'],
+            'app0': {id(x): len(x.appended) for x in top
+                     if isinstance(x, tm.AbsNodeList)},
+        }
+        p.ghost['yielded'] = []
+
+    def new_leaf(e, p, it, env_):
+        """The one leaf this iteration produced (appended or yielded), with
+        the obligations that nothing else happened to the structure."""
+        v = env_.vars
+        N = 'C08/parse_smtlib'
+        below, top = stack_view(v['exprs'])
+        same_stack = len(top) == len(it['top0']) and all(
+            a is b for a, b in zip(top, it['top0'])) and \
+            tm._provably(below == it['below0'])
+        p.oblige(f'{N}/token-leaves-the-open-lists-alone',
+                 same_stack and v['cur_expr'] is it['cur0'],
+                 info={'signature': 'a token changed the nesting'})
+        ys = p.ghost['yielded']
+        cur0 = it['cur0']
+        if cur0 is None:
+            got = ys
+            other = sum(len(x.appended) - it['app0'].get(id(x), 0)
+                        for x in top if isinstance(x, tm.AbsNodeList))
+        else:
+            got = cur0.appended[it['app0'].get(id(cur0), 0):]
+            other = len(ys)
+        p.oblige(f'{N}/token-becomes-exactly-one-leaf-of-the-innermost-'
+                 'open-list', len(got) == 1 and other == 0 and is_node(
+                     got[0]) if got else False,
+                 info={'signature': 'token dropped, duplicated or put '
+                       'somewhere else', 'got': repr(got)[:200]})
+        if len(got) != 1 or not is_node(got[0]):
+            return None
+        d = got[0].attrs.get('data')
+        if not isinstance(d, tm.SpanStr) or d.single_span() is None:
+            p.oblige(f'{N}/token-text-is-a-contiguous-piece-of-the-input',
+                     False, info={'data': repr(d)[:200], 'signature':
+                                  'token text is not one span of the text'})
+            return None
+        return d.single_span()
+
+    def nothing_structural(e, p, it, env_, what):
+        v = env_.vars
+        below, top = stack_view(v['exprs'])
+        same = len(top) == len(it['top0']) and all(
+            a is b for a, b in zip(top, it['top0'])) and tm._provably(
+                below == it['below0']) and \
+            v['cur_expr'] is it['cur0'] and not p.ghost['yielded'] and all(
+                len(x.appended) == it['app0'].get(id(x), 0) for x in top
+                if isinstance(x, tm.AbsNodeList))
+        p.oblige(f'C08/parse_smtlib/{what}-changes-nothing', same,
+                 info={'signature': f'{what} had an effect on the result'})
+
+    def post_outer(e, env_, p):
+        """One iteration == one step of the reader at position pos0."""
+        v = env_.vars
+        t = T(env_)
+        it = p.ghost['it']
+        a = it['pos0']
+        pos = zi(v['pos'])
+        c = t.at(a)
+        N = 'C08/parse_smtlib'
+        at = lambda i: t.at(i)  # noqa: E731
+        where = 'inside-a-list' if it['cur0'] is not None else 'at-top-level'
+
+        def cover(what):
+            p.oblige(f'cover/parse_smtlib/{what}-{where}', False,
+                     kind='cover')
+
+        if e.truth(mk_bool(is_in(c, WS))):
+            cover('white-space')
+            nothing_structural(e, p, it, env_, 'white-space')
+            p.oblige(f'{N}/white-space-consumes-one-character',
+                     mk_bool(pos == a + 1))
+        elif e.truth(mk_bool(c == LP)):
+            cover('open')
+            below, top = stack_view(v['exprs'])
+            ok = len(top) == len(it['top0']) + 1 and all(
+                x is y for x, y in zip(top, it['top0'])) and tm._provably(
+                    below == it['below0']) and \
+                isinstance(top[-1], list) and top[-1] == [] and \
+                v['cur_expr'] is top[-1] and not p.ghost['yielded'] and all(
+                    len(x.appended) == it['app0'].get(id(x), 0)
+                    for x in top if isinstance(x, tm.AbsNodeList))
+            p.oblige(f'{N}/open-pushes-one-empty-list', ok,
+                     info={'signature': '( does not open exactly one new '
+                           'innermost list'})
+            p.oblige(f'{N}/open-consumes-one-character', mk_bool(pos == a + 1))
+        elif e.truth(mk_bool(c == RP)):
+            cover('close')
+            close_post(e, env_, p, it)
+            p.oblige(f'{N}/close-consumes-one-character',
+                     mk_bool(pos == a + 1))
+        elif e.truth(mk_bool(c == SEMI)):
+            cover('comment')
+            sp = new_leaf(e, p, it, env_)
+            if sp is None:
+                return
+            lo, hi = sp
+            p.oblige(f'{N}/comment-is-one-leaf-up-to-the-line-end', mk_bool(
+                z3.And(lo == a, hi == pos, hi > lo, hi <= t.size,
+                       forall_range(a + 1, hi - 1,
+                                    lambda i: z3.Not(is_in(at(i), NL))),
+                       z3.Or(z3.And(is_in(at(hi - 1), NL), hi - 1 > a),
+                             hi == t.size))),
+                info={'signature': 'comment leaf is not exactly the text up '
+                      'to and including the first line end'})
+        elif e.truth(mk_bool(z3.Or(c == Q, c == BAR))):
+            cover('literal')
+            sp = new_leaf(e, p, it, env_)
+            if sp is None:
+                return
+            lo, hi = sp
+            inner = z3.If(
+                c == BAR,
+                forall_range(a + 1, hi - 1, lambda i: at(i) != BAR),
+                z3.And(
+                    z3.Or(hi == t.size, at(hi) != Q),
+                    forall_range(a + 1, hi - 1, lambda i: z3.Implies(
+                        at(i) == Q, z3.Or(
+                            z3.And(i - 1 > a, at(i - 1) == Q),
+                            z3.And(i + 1 < hi - 1, at(i + 1) == Q))))))
+            p.oblige(f'{N}/literal-is-one-leaf-from-quote-to-closing-quote',
+                     mk_bool(z3.And(lo == a, hi == pos, hi - 1 > a,
+                                    hi <= t.size, at(hi - 1) == c, inner)),
+                     info={'signature': 'string literal / quoted symbol is '
+                           'not exactly the text from its opening to its '
+                           'closing quote'})
+        else:
+            cover('token')
+            sp = new_leaf(e, p, it, env_)
+            if sp is None:
+                return
+            lo, hi = sp
+            p.oblige(f'{N}/token-is-the-maximal-run-of-token-characters',
+                     mk_bool(z3.And(
+                         lo == a, hi > lo, hi <= t.size,
+                         forall_range(a, hi, lambda i: z3.Not(
+                             is_in(at(i), DELIM))),
+                         z3.Or(hi == t.size, is_in(at(hi), DELIM)),
+                         pos == z3.If(z3.And(hi < t.size,
+                                             is_in(at(hi), WS)),
+                                      hi + 1, hi))),
+                     info={'signature': 'token is not the maximal run of '
+                           'non-delimiter characters, or more / less than '
+                           'the token and one separating blank was consumed'})
+
+    def close_post(e, env_, p, it):
+        v = env_.vars
+        N = 'C08/parse_smtlib'
+        below, top = stack_view(v['exprs'])
+        ys = p.ghost['yielded']
+        if not it['top0'] and tm._provably(it['below0'] == 0):
+            nothing_structural(e, p, it, env_, 'unmatched-close')
+            return
+        popped = it['top0'][-1]
+
+        def closes(n):
+            d = n.attrs.get('data') if is_node(n) else None
+            return isinstance(d, tm.AbsTuple) and d.src is popped and \
+                d.count == len(popped.appended) and \
+                len(popped.appended) == it['app0'].get(id(popped), 0)
+
+        if top:
+            # one level up is still open: it receives the closed list
+            parent = top[-1]
+            ok = len(top) == 1 and parent is not popped and \
+                isinstance(parent, tm.AbsNodeList) and \
+                tm._provably(below == it['below0'] - 1) and \
+                len(parent.appended) == 1 and closes(parent.appended[0]) \
+                and v['cur_expr'] is parent and not ys
+        else:
+            ok = tm._provably(below == 0) and \
+                v['cur_expr'] is None and len(ys) == 1 and closes(ys[0])
+        p.oblige(f'{N}/close-wraps-the-innermost-list-into-one-node-of-its-'
+                 'parent', ok,
+                 info={'signature': ') does not turn the innermost open list '
+                       'into exactly one node of the enclosing list (or of '
+                       'the result at top level)'})
+
+    def ret_outer(e, env_, p):
+        """``return`` inside the loop: only for an unterminated literal."""
+        v = env_.vars
+        t = T(env_)
+        it = p.ghost['it']
+        a = it['pos0']
+        c = t.at(a)
+        N = 'C08/parse_smtlib'
+        at = lambda i: t.at(i)  # noqa: E731
+        p.oblige(f'{N}/gives-up-only-on-an-unterminated-literal', mk_bool(
+            z3.And(z3.Or(c == Q, c == BAR),
+                   z3.Implies(c == BAR, forall_range(
+                       a + 1, t.size, lambda i: at(i) != BAR)))),
+                 info={'signature': 'scanner stops early although the '
+                       'literal is terminated'})
+        nothing_structural(e, p, it, env_, 'unterminated-literal')
+
+    eng.loop_specs[(PS, L_OUTER)] = LoopSpec(
+        inv=inv_outer, havoc={'effect:state': havoc_outer},
+        sets=('pos', 'cur_expr', 'char'),
+        on_iter_start=snap_outer, on_iter_end=post_outer, on_return=ret_outer,
+        decreases=lambda e, env_: SNum(
+            T(env_).size - zi(env_.vars['pos'])))
+
+    # ---- inner loops ------------------------------------------------------------
+    def acc_havoc(var):
+
+        def h(e, env_, p):
+            t = T(env_)
+            a = p.ghost['it']['pos0']
+            pos = p.fresh_int('pos_' + var)
+            env_.vars['pos'] = SNum(pos)
+            env_.vars[var] = tm.CharList(t, [('span', a, pos)])
+            env_.vars['char'] = tm.SChar(t, code=p.fresh_int('char_' + var))
+
+        return h
+
+    def acc_inv(var, extra):
+
+        def inv(e, env_):
+            v = env_.vars
+            t = T(env_)
+            a = cur().ghost['it']['pos0']
+            pos = zi(v['pos'])
+            sp = spans_of(v[var], t)
+            if sp is None:
+                return [False]
+            lo, hi = sp
+            return [z3.And(a < pos, pos <= t.size),
+                    ('C08', z3.And(lo == a, hi == pos))] + extra(t, a, pos)
+
+        return inv
+
+    from pyvc.sym import cur  # noqa: E402
+
+    def ident_extra(t, a, pos):
+        return [('C08', forall_range(
+            a, pos, lambda i: z3.Not(is_in(t.at(i), DELIM))))]
+
+    def comment_extra(t, a, pos):
+        return [('C08', forall_range(
+            a + 1, pos, lambda i: z3.Not(is_in(t.at(i), NL))))]
+
+    def lit_extra(t, a, pos):
+        c = t.at(a)
+        return [z3.Or(c == Q, c == BAR),
+                ('C08', z3.Implies(c == BAR, forall_range(
+                    a + 1, pos, lambda i: t.at(i) != BAR))),
+                z3.Implies(c == Q, forall_range(
+                    a + 1, pos, lambda i: z3.Implies(
+                        t.at(i) == Q, z3.Or(
+                            z3.And(i - 1 > a, t.at(i - 1) == Q),
+                            z3.And(i + 1 < pos, t.at(i + 1) == Q)))))]
+
+    eng.loop_specs[(PS, L_IDENT)] = LoopSpec(
+        inv=acc_inv('token', ident_extra),
+        havoc={'effect:state': acc_havoc('token')},
+        decreases=lambda e, env_: SNum(T(env_).size - zi(env_.vars['pos'])))
+    eng.loop_specs[(PS, L_COMMENT)] = LoopSpec(
+        inv=acc_inv('comment', comment_extra),
+        havoc={'effect:state': acc_havoc('comment')},
+        decreases=lambda e, env_: SNum(T(env_).size - zi(env_.vars['pos'])))
+
+    def lit_inv(e, env_):
+        v = env_.vars
+        fc = v.get('first_char')
+        t = T(env_)
+        a = cur().ghost['it']['pos0']
+        base = acc_inv('literal', lit_extra)(e, env_)
+        if not isinstance(fc, tm.SChar):
+            return base
+        return base + [mk_bool(fc.code == t.at(a))]
+
+    eng.loop_specs[(PS, L_LIT)] = LoopSpec(
+        inv=lit_inv, havoc={'effect:state': acc_havoc('literal')},
+        decreases=lambda e, env_: SNum(
+            T(env_).size + 1 - zi(env_.vars['pos'])))
+
+
+def run_scanner(eng, p):
+    nodeio = eng.load_module('ddsmt.nodeio')
+    text = tm.SText(p)
+    p.ghost['yielded'] = []
+    N = 'parse_smtlib'
+    try:
+        gen = eng.call(nodeio.g['parse_smtlib'], [text], {})
+        for n in gen:
+            p.ghost['yielded'].append(n)
+            p.oblige('C04/parse_smtlib/yields-nodes',
+                     isinstance(n, ObjVal) and
+                     n.cls is nm.node_class(eng), info=repr(type(n)))
+        out = None
+    except PyRaise as ex:
+        out = ex
+    p.oblige('C04/parse_smtlib/raises-nothing', out is None,
+             info={'outcome': repr(out.value) if out else '', 'where': str(
+                 getattr(out, 'where', '')), 'signature':
+                   type(out.value).__name__ if out else ''})
+
+
+def scanner_replay(name, model, detail):
+    """The counter-model gives a text (array of codes + length): it is run,
+    alone and embedded in balanced contexts, through the real parser and
+    compared with the reference reader."""
+    arr = None
+    size = None
+    for k, v in model.items():
+        if isinstance(v, dict) and 'array' in v:
+            arr = v['array']
+        if k.endswith('text_size'):
+            size = v
+    if arr is None or not isinstance(size, int):
+        return None
+    size = max(0, min(size, len(arr)))
+    text = ''.join(chr(c) if 0 < c < 0x110000 and chr(c).isprintable() or
+                   c in (9, 10, 13, 32) else 'a' for c in arr[:size])
+    script = f"""
+import sys
+from harness import replaylib as R
+R.init_ddsmt()
+from harness import refreader as ref
+from ddsmt import nodeio
+base = {text!r}
+def plain(n):
+    if isinstance(n, (list, tuple)):
+        return [plain(x) for x in n]
+    return n.data if n.is_leaf() else [plain(c) for c in n.data]
+def norm(t):
+    return ref.norm_comment(t) if isinstance(t, str) else [norm(c) for c in t]
+import itertools
+ALPHA = ['(', ')', '"', '|', ';', ' ', '\\t', '\\n', '\\r', 'a', '#']
+cands = []
+for k in range(3):
+    for suf in itertools.product(ALPHA, repeat=k):
+        b = base + ''.join(suf)
+        cands += [b, '(' + b + ')', '(' + b + '\\n)', '(a ' + b + ' b)',
+                  '(a ' + b + '\\n b)', 'a ' + b, '((' + b + '))']
+for t in cands:
+    try:
+        got = plain(list(nodeio.parse_smtlib(t)))
+    except Exception as e:
+        print('raised', type(e).__name__, e, 'on', repr(t))
+        sys.exit(1)
+    want, ok = ref.read(t)
+    if ok and ref.well_separated(t) and norm(got) != want:
+        print('parser gives', norm(got), 'standard reader gives', want,
+              'on', repr(t))
+        sys.exit(1)
+print('no disagreement on', len(cands), 'texts built around', repr(base))
+sys.exit(0)
+"""
+    return {'script': script, 'input': text, 'search': True}
+
+
+def scanner_contracts(tier):
+    return [
+        Contract('parse_smtlib', [PS], run_scanner, setup=setup_scanner,
+                 max_paths=20000, replay=scanner_replay,
+                 assumptions=[
+                     'text modelled as an array of character codes of '
+                     'arbitrary length; str indexing, one-character '
+                     'comparisons, list append/pop/[-1], "".join and f(*xs) '
+                     'per Python semantics (contracts/textmodel.py)',
+                     'the result of the reader is the fold of the verified '
+                     'steps (the loop itself); exact pairing of doubled '
+                     'quotes inside a string literal is stated as a necessary '
+                     'condition only (the exact regular condition is checked '
+                     'by the bounded native check)']),
     ]
